@@ -169,7 +169,7 @@ class Strh(ThumbInstruction):
         assert self.rt.num < 8
         rn = self.rn.num
         rt = self.rt.num
-        imm5 = self.imm5 << 1
+        imm5 = self.imm5 >> 1
         tokens = self.get_tokens()
         tokens[0][0:3] = rt
         tokens[0][3:6] = rn
@@ -192,7 +192,7 @@ class Ldrh(ThumbInstruction):
         assert self.rt.num < 8
         rn = self.rn.num
         rt = self.rt.num
-        imm5 = self.imm5
+        imm5 = self.imm5 >> 1
         tokens = self.get_tokens()
         tokens[0][0:3] = rt
         tokens[0][3:6] = rn
